@@ -1,6 +1,7 @@
 """C19 - Hill form is a canonical, composition-preserving normal form."""
 from contracts import formulas as F
 
+from contracts import formulas as FO
 ID = "C19"
 LEVEL = "other"
 TRUSTED = ["A3 sorted() is a stable permutation ordered by key"]
@@ -8,7 +9,7 @@ EXPLANATION = "see DESIGN.md C19"
 
 
 def units(tier):
-    return [F.U_HILL, F.U_HILL_NOTATION, F.L_DEN_PERMUTATION, F.U_COUNT_ATOMS, F.U_ATOMS] + F.U_FORMULA_KINDS
+    return ([F.U_HILL, F.U_HILL_NOTATION, F.L_DEN_PERMUTATION, F.U_COUNT_ATOMS, F.U_ATOMS] + F.U_FORMULA_KINDS) + [FO.U_HILL_KEY]
 
 
 def runner_tasks(tier):
